@@ -401,3 +401,56 @@ func snapSpec(b tally.Buckets) tally.Buckets {
 func CapsOf(n int) tally.Capabilities {
 	return Caps(n&1 == 0, n&2 == 0)
 }
+
+// ---------------------------------------------------------------- one object in both roles
+
+// Dual is ONE reporter object that speaks both reporter protocols (as a
+// reporter such as tally's own test reporter does) and can be handed to a
+// scope as Reporter and as CachedReporter at the same time. Flush and Close
+// are logged once per call whatever role they were called in.
+type Dual struct {
+	S *Stats
+	C *Cached
+}
+
+func (d *Dual) ReportCounter(name string, tags map[string]string, value int64) {
+	d.S.ReportCounter(name, tags, value)
+}
+func (d *Dual) ReportGauge(name string, tags map[string]string, value float64) {
+	d.S.ReportGauge(name, tags, value)
+}
+func (d *Dual) ReportTimer(name string, tags map[string]string, interval time.Duration) {
+	d.S.ReportTimer(name, tags, interval)
+}
+func (d *Dual) ReportHistogramValueSamples(name string, tags map[string]string, buckets tally.Buckets, lo, hi float64, samples int64) {
+	d.S.ReportHistogramValueSamples(name, tags, buckets, lo, hi, samples)
+}
+func (d *Dual) ReportHistogramDurationSamples(name string, tags map[string]string, buckets tally.Buckets, lo, hi time.Duration, samples int64) {
+	d.S.ReportHistogramDurationSamples(name, tags, buckets, lo, hi, samples)
+}
+func (d *Dual) AllocateCounter(name string, tags map[string]string) tally.CachedCount {
+	return d.C.AllocateCounter(name, tags)
+}
+func (d *Dual) AllocateGauge(name string, tags map[string]string) tally.CachedGauge {
+	return d.C.AllocateGauge(name, tags)
+}
+func (d *Dual) AllocateTimer(name string, tags map[string]string) tally.CachedTimer {
+	return d.C.AllocateTimer(name, tags)
+}
+func (d *Dual) AllocateHistogram(name string, tags map[string]string, buckets tally.Buckets) tally.CachedHistogram {
+	return d.C.AllocateHistogram(name, tags, buckets)
+}
+func (d *Dual) Capabilities() tally.Capabilities { return d.S.Capabilities() }
+func (d *Dual) Flush()                           { d.S.Flush() }
+
+// DualCloser is Dual that also implements io.Closer.
+type DualCloser struct {
+	*Dual
+	Err error
+}
+
+func (d DualCloser) Close() error {
+	d.S.L.call("rep:close")
+	d.S.L.add(Event{Thread: d.S.Child, Kind: KClose})
+	return d.Err
+}
